@@ -14,11 +14,14 @@ W="${MUT_WORK:-/tmp/mut-work}"
 mkdir -p "$W"
 exec 9>"$W/.lock"
 flock 9
-rsync -a --delete --exclude target --exclude .git /repo/ "$W/repo/"
+# No -t and --checksum: a file whose content changes (patched now, or restored after the previous
+# patch) gets a fresh mtime, so cargo rebuilds its crate. With -a a restored file would keep its
+# old mtime and cargo would keep the previous patch compiled in.
+rsync -rlpgoD --checksum --delete --exclude target --exclude .git /repo/ "$W/repo/"
 if ! (cd "$W/repo" && patch -p1 --quiet < "$PATCH"); then
   echo "$(basename "$PATCH") PATCH-DOES-NOT-APPLY"; exit 2
 fi
-rsync -a --delete --exclude target "$ROOT/sim/" "$W/sim/"
+rsync -rlpgoD --checksum --delete --exclude target "$ROOT/sim/" "$W/sim/"
 sed -i "s#\"/repo/#\"$W/repo/#g" "$W/sim/Cargo.toml"
 cp "$ROOT/known_findings.json" "$ROOT/properties.jsonl" "$W/"
 rm -rf "$W/replays"
